@@ -7,7 +7,7 @@ From Coq Require Import List Arith NArith ZArith Bool String.
 From Coq.Strings Require Import Byte.
 From Peppi Require Import Base.Bytes Base.Outcome Base.Stream Layout.Syntax Gen.Funs Gen.Tables Layout.Sem Layout.Rows Layout.Shapes
   Layout.RowsTheory Model.Ubjson Model.Start Model.Parse Model.Reader Model.Writer Model.Recorder
-  Proofs.TableFacts Proofs.ReadProof Proofs.Examples.
+  Proofs.TableFacts Proofs.ReadProof Proofs.WriteProof Proofs.Corollaries Proofs.Examples.
 Import ListNotations.
 
 (* reader half, for EVERY well-formed replay: any version up to the maximum, any occupied ports, any frame
@@ -18,6 +18,19 @@ Theorem C01_read : forall r st h,
   slp_read {| o_skip := false; o_hash := h |} (emit r)
   = Ok (game_of {| o_skip := false; o_hash := h |} r st (end_of r), []).
 Proof. intros r st h Hwf Hst. exact (read_full r st Hwf Hst h). Qed.
+
+(* writer half, for EVERY well-formed replay: writing the game the replay denotes reproduces the canonical stream,
+   byte for byte (payload table, declared raw length, gecko blocks, frames in canonical order, end(s), metadata) *)
+Theorem C01_write : forall r st h,
+  wf_replay r = true -> game_start (r_start r) = ROk st ->
+  slp_write (game_of {| o_skip := false; o_hash := h |} r st (end_of r)) = Ok (emit r).
+Proof. exact c01_write. Qed.
+
+(* the property as stated: read, then write, gives back the input *)
+Theorem C01_roundtrip : forall r st h,
+  wf_replay r = true -> game_start (r_start r) = ROk st ->
+  exists g, slp_read {| o_skip := false; o_hash := h |} (emit r) = Ok (g, []) /\ slp_write g = Ok (emit r).
+Proof. exact c01_roundtrip. Qed.
 
 (* same-shape obligations on the regenerated tables, used by the writer half: the reader and writer tables of each
    frame-level record enumerate the same fields, primitives and version gates, and size() agrees with them *)
@@ -42,6 +55,8 @@ Theorem C01_nonvacuous :
 Proof. exact (conj ex_r37_wf (conj ex_r25_wf ex_r10_wf)). Qed.
 
 Print Assumptions C01_read.
+Print Assumptions C01_write.
+Print Assumptions C01_roundtrip.
 Print Assumptions C01_tables_same_shape.
 Print Assumptions C01_write_row_identity.
 Print Assumptions C01_size_fn.
